@@ -59,7 +59,7 @@ def run_shard(ctx):
     hashes = []  # (node, hash at creation)
     from vlib.universe import warm_up
 
-    ctx.extra["first_use_order"] = warm_up(U, ctx.rng("warm-up"))[:6]
+    ctx.extra["first_use_order"] = warm_up(U, ctx.rng("warm-up"), ctx)[:6]
     for case in ctx.cases(ctx.params["families"]):
         rng = ctx.rng(case)
         tg = G.TreeGen(rng, U, max_nodes=rng.choice([4, 10, 22]), max_depth=8, max_width=4, share=0.15 if case % 3 == 0 else 0.0, twin=0.2, p_origin=0.4, hostile=0.05)
